@@ -96,6 +96,17 @@ class Shaper:
             if passes and e.get('fid') and (e['fid'] in self.prog.funcs or e['fid'] in self.prog.decls):
                 out.append('C:' + norm_name(e['f']))
             return
+        if k == 'cond' and len(e.get('a', [])) == 3:
+            # c ? x : y -- only one of the two is evaluated
+            self.expr(e['a'][0], out)
+            tx, ty = [], []
+            self.expr(e['a'][1], tx)
+            self.expr(e['a'][2], ty)
+            if tx == ty:
+                out.extend(tx)
+            elif tx or ty:
+                out.append(('alt', tuple(tx), tuple(ty)))
+            return
         for key in ('a',):
             for a in e.get(key, []) if isinstance(e.get(key), list) else []:
                 self.expr(a, out)
@@ -255,8 +266,10 @@ def flat_counts(seq):
     return show(seq)
 
 
-def hash_calls(prog, f):
-    """[(callee, count literal, [role token per variadic/explicit argument])] in source order"""
+def hash_calls(prog, f, depth=0):
+    """[(callee, count literal, [role token per variadic/explicit argument])] in source order; the
+    hash calls of a helper that is expanded into f count as f's own, with the helper's parameters
+    replaced by the roles of the arguments it was called with"""
     pnames = set(p['n'] for p in f.get('params', []))
     out = []
     for e in walk(f.get('body')):
@@ -265,6 +278,23 @@ def hash_calls(prog, f):
             for a in e['a'][1:]:
                 roles.append(role(a, pnames))
             out.append((e['f'], roles, e.get('l', 0)))
+        elif e.get('k') in ('call', 'mcall') and e.get('fid') and depth < 3:
+            g = prog.funcs.get(e['fid'])
+            if g is not None and prog.is_helper(g):
+                amap = {}
+                for p, a in zip(g.get('params', []), e.get('a', [])):
+                    amap['param:' + p['n']] = role(a, pnames)
+                for (hf, roles, ln) in hash_calls(prog, g, depth + 1):
+                    tr = []
+                    for r in roles:
+                        hit = [k for k in amap if r == k or r.startswith(k + '[') or r.startswith(k + '.')]
+                        if hit:
+                            k = max(hit, key=len)
+                            base = amap[k]
+                            tr.append('L' if base == 'L' else base + r[len(k):])
+                        else:
+                            tr.append(r)
+                    out.append((hf, tr, ln))
     return out
 
 
